@@ -12,6 +12,15 @@ theorem pres_opensC {s s' : St} {a : Act} (hI : Inv s) (h : step .repaired s a =
   | fire t0 =>
     simp only [step] at h
     (repeat' (split at h)) <;> (try cases h) <;> (simp only [St.setPc, St.setObj]; (have i_opensC := hI.opensC; have i_shOpen := hI.shOpen; have i_shNil := hI.shNil; have i_shCl := hI.shCl; have i_refs := hI.refs; grind [upd, needsOpen, knowsNil, setsNil, Obj.fresh, PC.ref, ind]))
+  | corrupt d =>
+    simp only [step] at h
+    (repeat' (split at h)) <;> (try cases h) <;> (simp only []; (have i_opensC := hI.opensC; have i_shOpen := hI.shOpen; have i_shNil := hI.shNil; have i_shCl := hI.shCl; have i_refs := hI.refs; grind [upd, needsOpen, knowsNil, setsNil, Obj.fresh, PC.ref, ind]))
+  | block d =>
+    simp only [step] at h
+    (repeat' (split at h)) <;> (try cases h) <;> (simp only []; (have i_opensC := hI.opensC; have i_shOpen := hI.shOpen; have i_shNil := hI.shNil; have i_shCl := hI.shCl; have i_refs := hI.refs; grind [upd, needsOpen, knowsNil, setsNil, Obj.fresh, PC.ref, ind]))
+  | repair d =>
+    simp only [step] at h
+    (repeat' (split at h)) <;> (try cases h) <;> (simp only []; (have i_opensC := hI.opensC; have i_shOpen := hI.shOpen; have i_shNil := hI.shNil; have i_shCl := hI.shCl; have i_refs := hI.refs; grind [upd, needsOpen, knowsNil, setsNil, Obj.fresh, PC.ref, ind]))
   | run t0 =>
     simp only [step] at h
     split at h
